@@ -93,6 +93,7 @@ func c12Case(kind string, p, t *ref.T) core.Verdict {
 
 func checkC12(c *core.Ctx) {
 	defer sweepC12(c)
+	defer scalingCases(c, "MSE")
 	defer selfCases(c, false, "loss")
 	defer soakC12(c)
 	defer gridC12C13(c, false)
@@ -327,6 +328,7 @@ func shortT(t *ref.T) string {
 
 func checkC14(c *core.Ctx) {
 	defer sweepC14(c)
+	defer scalingCases(c, "Relu", "LeakyRelu")
 	defer soakC14(c)
 	defer gridC14(c)
 	var shapes [][]int
